@@ -63,6 +63,8 @@ type Spec struct {
 	DeadlineMs int    `json:"deadline_ms"` // idle deadline given to server.TimeoutConn
 	WaitMs     int    `json:"wait_ms"`     // bounded wait for Handle after the client is gone
 	Perturb    string `json:"perturb,omitempty"`
+	Sweep      *SweepIn `json:"sweep,omitempty"` // part "sweep": unmodelled service, scenario by number
+	SettleMs   int    `json:"settle_ms"` // one passive-socket timeout (+ margin): waited when a recovered panic left something behind
 }
 
 // ConnObs is what was observed on one connection.
@@ -89,6 +91,7 @@ type ChildResult struct {
 	LisGC  int       `json:"lis_gc"` // listening sockets above the baseline after a forced GC + finalizers
 	FdsGC  int       `json:"fds_gc"`
 	GorGC  int       `json:"gor_gc"`
+	Settled []int    `json:"settled,omitempty"` // goroutines, listeners, descriptors above the baseline one passive-socket timeout later
 	Events int64     `json:"events"`
 	Err    string    `json:"err,omitempty"`
 }
@@ -191,6 +194,23 @@ func writePNG(path string) {
 	}
 	png.Encode(f, im)
 	f.Close()
+}
+
+func buildServiceCfg(name, cfgText string, ch *countChannel) services.Servicer {
+	f, ok := services.Get(name)
+	if !ok {
+		hx.Fatal("service %q is not registered", name)
+	}
+	var cfg map[string]toml.Primitive
+	md, err := toml.Decode(cfgText, &cfg)
+	if err != nil {
+		hx.Fatal("toml: %v", err)
+	}
+	s := f(services.WithConfig(cfg["s"], &md), services.WithChannel(ch))
+	if s == nil {
+		hx.Fatal("service %q could not be constructed", name)
+	}
+	return s
 }
 
 func buildService(name, scratch string, ch *countChannel) services.Servicer {
@@ -445,7 +465,12 @@ func childMain(specPath, outPath string) {
 	os.MkdirAll(filepath.Join(scratch, "db"), 0o755)
 	storage.SetDataDir(filepath.Join(scratch, "db"))
 	ch := &countChannel{}
-	svc := buildService(sp.Svc, scratch, ch)
+	var svc services.Servicer
+	if sp.Sweep != nil {
+		svc = buildSweepService(sp.Sweep.Svc, scratch, ch)
+	} else {
+		svc = buildService(sp.Svc, scratch, ch)
+	}
 	var res ChildResult
 	write := func() {
 		res.Events = atomic.LoadInt64(&ch.n)
@@ -456,7 +481,13 @@ func childMain(specPath, outPath string) {
 	g0 := settle()
 	f0, l0 := fdCounts()
 	for i := 0; i < sp.N; i++ {
-		ob, gone := runConn(svc, sp, i)
+		var ob ConnObs
+		var gone bool
+		if sp.Sweep != nil {
+			ob, gone = runSweepConn(svc, sp, i)
+		} else {
+			ob, gone = runConn(svc, sp, i)
+		}
 		if gone {
 			g := honeytrapGoroutines()
 			f, l := fdCounts()
@@ -487,5 +518,18 @@ func childMain(specPath, outPath string) {
 	g := settle()
 	f, l := fdCounts()
 	res.GorGC, res.LisGC, res.FdsGC = g-g0, l-l0, f-f0-heldCount()
+	panicked := false
+	for _, c := range res.Conns {
+		if c.Outcome == "panic" {
+			panicked = true
+		}
+	}
+	if panicked && (res.GorGC != 0 || res.LisGC != 0 || res.FdsGC != 0) && sp.SettleMs > 0 {
+		// whatever a recovered panic left behind may sit on a timer of its own
+		time.Sleep(time.Duration(sp.SettleMs) * time.Millisecond)
+		g := settle()
+		f, l := fdCounts()
+		res.Settled = []int{g - g0, l - l0, f - f0 - heldCount()}
+	}
 	write()
 }
